@@ -180,6 +180,8 @@ func rewriteImpliesInner(s string) string {
 
 func parseSpecExpr(text string) (ast.Expr, error) {
 	t := regexp.MustCompile(`#i([0-9]*)`).ReplaceAllString(text, "__ri$1")
+	// #r / #rN: the slice a range loop (loop N; this loop when N is omitted) iterates over, as evaluated when the loop started
+	t = regexp.MustCompile(`#r([0-9]*)`).ReplaceAllString(t, "__rr$1")
 	t = rewriteImplies(t)
 	return parser.ParseExpr(t)
 }
